@@ -536,18 +536,21 @@ def run(ctx):
   fam = {}
   for c in cases:
     fam[c["family"]] = fam.get(c["family"], 0) + 1
-  seen, dup = set(), 0
+  seen, dup, per_class = set(), 0, {}
   for r in ctx.pmap(work, list(chunks(cases, 50)), chunksize=1):
-    # one report per distinct (clause, key); further cases with the same key
-    # are counted, not kept
+    # further cases with an already reported key / class are counted, not
+    # kept
     vs = r.pop("violations")
     r["violations"] = []
     ctx.merge(r)
     for v in vs:
       fp = fingerprint(v["clause"], v["key"])
-      if fp in seen:
+      # keep the first 3 witnesses per (clause, family, field)
+      cls = (v["clause"], v["key"].get("family"), v["key"].get("field"))
+      if fp in seen or per_class.get(cls, 0) >= 3:
         dup += 1
       else:
+        per_class[cls] = per_class.get(cls, 0) + 1
         seen.add(fp)
         ctx.violation(v)
   ctx.extra["violating_cases_with_an_already_reported_key"] = dup
